@@ -2,7 +2,8 @@
    Only statements, `exact`, Print Assumptions and non-vacuity examples here.
    Machine: model/Flow.v (step, steps, run);  reference semantics and layout: model/FlowRef.v. *)
 From Coq Require Import ZArith List Bool.
-From PCB Require Import gen.Gen_flow model.Flow model.FlowRef proofs.Flow_proofs proofs.FlowRef_proofs.
+From PCB Require Import gen.Gen_flow model.Flow model.FlowRef proofs.Flow_proofs proofs.FlowFor_proofs
+  proofs.FlowRef_proofs.
 Import ListNotations.
 Open Scope Z_scope.
 
